@@ -299,7 +299,7 @@ def rule_results_all_added(ctx, rep, rule_id="R-RESULTS-ALL-ADDED"):
         "a condition on the individual result (only on the run it belongs to: the tool detector).  A per-result filter (`suppressions` present, "
         "a level, a kind) drops findings the file reports as open -- SARIF has no such notion short of an *accepted* suppression -- and the "
         "sites they name are silently left unfixed.  (Sonar's status filter is the one documented per-result condition: R-OPEN-STATUS.)",
-        min_instances=3,
+        min_instances=2,
     )
     n = 0
     fam = ctx.prog.all_subclasses("codemodder.result.ResultSet")
